@@ -61,7 +61,7 @@ Proof.
       replace (Z.of_nat (S (List.length offs)) <=? 0) with false by (symmetry; apply Z.leb_gt; lia); [reflexivity|].
     cbn [entries] in E. destruct (le32_cut _ _ _ _ E) as [Hs|(t1 & -> & E1)]; [rewrite read32_short by exact Hs; reflexivity|].
     rewrite read32_le32. destruct (le32_cut _ _ _ _ E1) as [Hs|(t2 & -> & E2)]; [rewrite read32_short by exact Hs; reflexivity|].
-    rewrite read32_le32. destruct (nth_error strings (Z.to_nat (i mod W32))); [|reflexivity].
+    rewrite read32_le32. destruct (if i mod W32 <? Z.of_nat (List.length strings) then nth_error strings (Z.to_nat (i mod W32)) else None); [|reflexivity].
     replace (Z.of_nat (S (List.length offs)) - 1) with (Z.of_nat (List.length offs)) by lia.
     rewrite (IH (i + 1) strings f t2 y Hy E2). reflexivity.
 Qed.
